@@ -363,6 +363,93 @@ def run(ctx):
     ctx.info("InterrogateBuilder::remap_indices rewrites: %s" % sorted(got_b))
 
     _header_entry(ctx)
+    _registered_hash(ctx)
+
+
+def _registered_hash(ctx):
+    """R11.5: names are made unique through the _wrappers_by_hash registry; the
+    wrapper/unique names are built from remap->_hash.  On every path on which
+    hash_function_signature returns, remap->_hash must hold the value of the
+    local that was registered, i.e. it was assigned from that local after the
+    local's last modification."""
+    db = ctx.db
+    ctx.rule("R11.5", "in hash_function_signature, on every returning path remap->_hash was assigned from the registered hash variable after that variable's last change")
+    fn = db.fn("InterfaceMaker::hash_function_signature")
+    cfg = fn.cfg
+    # the hash local: the one inserted into _wrappers_by_hash together with the remap parameter
+    hv = None
+    for n in fn.walk():
+        if n.get("k") == "decls":
+            for d in n["d"]:
+                if "init" in d and any(c.get("k") == "call" and callee_short(c) == "hash_string" for c in walk(d["init"])):
+                    hv = d
+                    break
+        if hv:
+            break
+    if hv is None:
+        ctx.broken("hash_function_signature: hash variable not found")
+    regs = 0
+    for n in fn.walk():
+        if n.get("k") == "call" and (field_of(n.get("this")) or field_of((n.get("a") or [None])[0]) or "").endswith("_wrappers_by_hash") and callee_short(n) in ("insert", "operator[]"):
+            if any(x.get("k") == "ref" and x.get("d") == hv["d"] for x in walk(n)):
+                regs += 1
+    ctx.floor("R11.5", "registrations of the hash variable", regs, 2)
+    rp = fn.params[0]["d"]
+
+    def effect(n):
+        """+1 remap->_hash = hash ; -1 hash modified ; 0 none"""
+        t = assigned_target(n) if n is not None else None
+        if t:
+            if field_of(t[0]) == "FunctionRemap::_hash" and (local_ref(base_of(t[0])) or {}).get("d") == rp:
+                r = local_ref(t[1])
+                return 1 if (r is not None and r.get("d") == hv["d"]) else -1
+            l = local_ref(t[0])
+            if l is not None and l.get("d") == hv["d"]:
+                return -1
+        if n is not None and n.get("k") == "call" and n.get("opc") and callee_short(n) in ("operator+=", "operator=") and n.get("a"):
+            l = local_ref(n["a"][0])
+            if l is not None and l.get("d") == hv["d"]:
+                return -1
+            if field_of(n["a"][0]) == "FunctionRemap::_hash" and (local_ref(base_of(n["a"][0])) or {}).get("d") == rp:
+                r = local_ref(n["a"][1]) if len(n["a"]) > 1 else None
+                return 1 if (r is not None and r.get("d") == hv["d"] and callee_short(n) == "operator=") else -1
+        return 0
+    state_in = {cfg.entry: False}
+    work = [cfg.entry]
+    bad = None
+    while work:
+        bid = work.pop()
+        st = state_in[bid]
+        b = cfg.blocks[bid]
+        ended = False
+        for e in b.elems:
+            n = fn.nodes.get(e)
+            ef = effect(n)
+            if ef == 1:
+                st = True
+            elif ef == -1:
+                st = False
+            if n is not None and n.get("k") == "ret":
+                if not st:
+                    bad = bad or n
+                ended = True
+                break
+        if ended or b.noret:
+            continue
+        for s_ in b.succs:
+            if s_ is None:
+                continue
+            if s_ == cfg.exit:
+                if not st:
+                    bad = bad or fn.nodes.get(b.elems[-1]) if b.elems else bad or fn.body
+                continue
+            new = st if s_ not in state_in else (state_in[s_] and st)
+            if s_ not in state_in or new != state_in[s_]:
+                state_in[s_] = new
+                work.append(s_)
+    ctx.ob("R11.5", "hash_function_signature|stored-hash-is-registered-hash", bad is None, fn.loc(bad) if bad is not None and "i" in bad else fn.loc(),
+           "every returning path leaves remap->_hash equal to the registered hash" if bad is None else
+           "a path returns with remap->_hash not (re)assigned from `%s` after its last change: the names built from it are not the ones made unique" % hv["n"])
 
 
 def _chain(n):
